@@ -452,6 +452,12 @@ func replay(id int, b *behaviour, engine, mode string, sameObjects bool) common.
 						fmt.Sprintf("%s: second compilation of the same binary with another listener factory (same listened functions): the new factory's listeners saw %d of %d events", engine, len(rec.events), len(want)))
 				}
 			} else {
+				// mark returns the counter: its After event carries the same implementation-defined offset as its result
+				for i := range rec.events {
+					if e := &rec.events[i]; e.E == "after" && e.F == "mark" {
+						e.V -= delta["M"]
+					}
+				}
 				compareEvents(fail, want, rec.events, rec.only != nil || closedBefore)
 			}
 		}
